@@ -141,6 +141,7 @@ fn evaluate_do_block_expr(
         }
 
         // Evaluate the value (allow shadowing - no check for existing binding)
+        let cells_before = heap.borrow().len();
         let val = evaluate_ast(
             value,
             Rc::clone(&heap),
@@ -149,8 +150,11 @@ fn evaluate_do_block_expr(
             source.clone(),
         )?;
 
-        // Set lambda name if assigning a lambda
-        if let Value::Lambda(lambda_ptr) = val {
+        // Set lambda name if assigning a lambda that this assignment created: naming a
+        // function that already existed would change what its other holders observe
+        if let Value::Lambda(lambda_ptr) = val
+            && lambda_ptr.index() >= cells_before
+        {
             let mut borrowed_heap = heap.borrow_mut();
             if let Some(HeapValue::Lambda(lambda_def)) = borrowed_heap.get_mut(lambda_ptr.index())
                 && lambda_def.name.is_none()
@@ -408,6 +412,7 @@ pub fn evaluate_ast(
                 ));
             }
 
+            let cells_before = heap.borrow().len();
             let val = evaluate_ast(
                 value,
                 Rc::clone(&heap),
@@ -425,8 +430,11 @@ pub fn evaluate_ast(
                 ));
             }
 
-            // Set lambda name if assigning a lambda
-            if let Value::Lambda(lambda_ptr) = val {
+            // Set lambda name if assigning a lambda that this assignment created: naming a
+            // function that already existed would change what its other holders observe
+            if let Value::Lambda(lambda_ptr) = val
+                && lambda_ptr.index() >= cells_before
+            {
                 let mut borrowed_heap = heap.borrow_mut();
                 if let Some(HeapValue::Lambda(lambda_def)) =
                     borrowed_heap.get_mut(lambda_ptr.index())
